@@ -20,8 +20,10 @@ REPO = os.environ.get("VT_REPO", "/repo")
 SRC = os.path.join(REPO, "src/main/python")
 DEPS = os.path.join(HERE, ".deps")
 WORK = os.path.join(HERE, ".work")
-EVIDENCE_DIR = os.path.join(HERE, "evidence")
-REPLAY_DIR = os.path.join(HERE, "replays")
+# runs against a scratch copy of the repository (mutants, seeded changes: VT_REPO set) must not overwrite the evidence of /repo
+_ALT = REPO != "/repo"
+EVIDENCE_DIR = os.path.join(WORK, "evidence-alt") if _ALT else os.path.join(HERE, "evidence")
+REPLAY_DIR = os.path.join(WORK, "replays-alt") if _ALT else os.path.join(HERE, "replays")
 KNOWN_FILE = os.path.join(HERE, "known_findings.json")
 
 EXIT_HELD, EXIT_VIOLATION, EXIT_INCONCLUSIVE = 0, 1, 2
